@@ -50,6 +50,21 @@ Fixpoint strs_eqb (a b : list str) : bool :=
   | _, _ => false
   end.
 
+(* diagnostics are compared as multisets *)
+Fixpoint insert_sorted (x : str) (l : list str) : list str :=
+  match l with
+  | [] => [x]
+  | y :: r => if str_ltb y x then y :: insert_sorted x r else x :: l
+  end.
+(* ... and as sets: SWC's Handler drops a diagnostic whose (message, span) was already
+   emitted, and a value-less attribute has the dummy span *)
+Fixpoint insert_sorted_set (x : str) (l : list str) : list str :=
+  match l with
+  | [] => [x]
+  | y :: r => if str_eqb y x then l else if str_ltb y x then y :: insert_sorted_set x r else x :: l
+  end.
+Definition sort_strs (l : list str) : list str := fold_right insert_sorted_set [] l.
+
 Record case_result := {
   cr_relevant : bool;          (* the real run produced an output to compare with *)
   cr_roundtrip : bool;         (* enc (dec input) = input *)
@@ -73,7 +88,7 @@ Definition run_case (c : jv) : case_result :=
            cr_roundtrip := jv_eqb (enc (dec input)) input;
            cr_same_status := Bool.eqb real_ok (negb (panicked s));
            cr_same_out := if real_ok then jv_eqb mo (jfield_d "output" c) else true;
-           cr_same_diag := strs_eqb (diags s) (jstrs (jfield_d "diags" c));
+           cr_same_diag := strs_eqb (sort_strs (diags s)) (sort_strs (jstrs (jfield_d "diags" c)));
            cr_model_out := mo;
            cr_model_diags := diags s; cr_extra := [] |}
       else {| cr_relevant := false; cr_roundtrip := true; cr_same_status := true;
